@@ -15,7 +15,7 @@ KEYSET = ["F1", "F2", "F3", "F4", "F5", "Tab", "Up", "Down", "Left", "Right", "E
           "F6", "F7", "F8", "F9", "F10", "F11", "F12", "Home", "End", "PageUp", "PageDown", "Insert", "Delete", "BackTab", "CtrlA", "CtrlL", "AltX", "ShiftUp", "CtrlRight", "Nul", "Utf8", "Wide"]
 SIZES_R = [1, 2, 3, 4, 5, 7, 10, 24, 50, 120]
 SIZES_C = [1, 2, 5, 10, 20, 49, 50, 80, 160, 250]
-FLAGS = ["--touchscreen", "--disable-lat-long", "--disable-callsign", "--disable-icao", "--disable-heading", "--disable-track", "--limit-parsing", "--retry-tcp"]
+FLAGS = ["--touchscreen", "--disable-lat-long", "--disable-callsign", "--disable-icao", "--disable-heading", "--disable-track", "--limit-parsing", "--retry-tcp", "--max-range=60", "--max-range=0"]
 AIRCRAFT = [0x4840D6, 0xABC001, 0x3C6586, 0x000001, 0xFFFFFE]
 
 
@@ -29,6 +29,10 @@ def traffic(n_ac, with_pos, step):
             lat, lon = F.destination(RX[0], RX[1], 70.0 * i + 3 * step, 20.0 + 15 * i)
             if with_pos == 2:
                 lat, lon = F.destination(RX[0], RX[1], 45.0, 30.0)
+            if with_pos == 3:
+                # jumping aircraft: alternately near and 170 km further out (the tracker clears the
+                # record on the jump; also beyond a small --max-range)
+                lat, lon = F.destination(RX[0], RX[1], 70.0 * i, 20.0 + 170.0 * (step % 2))
             out.append(F.position(a, lat, lon, 0))
             out.append(F.position(a, lat, lon, 1))
             out.append(F.velocity(a, 120 + i, 80 - 30 * i, 64 * i))
@@ -38,7 +42,7 @@ def traffic(n_ac, with_pos, step):
 def run_case(case):
     fails = []
     opts = [FLAGS[i % len(FLAGS)] for i in case["flags"]]
-    opts = list(dict.fromkeys(opts))
+    opts = list({o.split("=")[0]: o for o in reversed(opts)}.values())  # one value per option
     if case.get("locations"):
         opts += ["--locations"] + case["locations"]
     if case.get("scale") is not None:
@@ -84,12 +88,12 @@ def run_case(case):
                     s.resize(SIZES_R[st[1] % len(SIZES_R)], SIZES_C[st[2] % len(SIZES_C)])
                 elif k == "feed":
                     if s.srv.conn is not None:
-                        for f in traffic(st[1] % 6, st[2] % 3, step_no):
+                        for f in traffic(st[1] % 6, st[2] % 4, step_no):
                             s.send(F.line(f))
                     time.sleep(0.1)
                 elif k == "feed_tab":
                     if s.srv.conn is not None:
-                        for f in traffic(st[1] % 6, st[2] % 3, step_no):
+                        for f in traffic(st[1] % 6, st[2] % 4, step_no):
                             s.send(F.line(f))
                     time.sleep(0.25)
                     s.p.write(key(["F1", "F2", "F3", "F4", "F5"][st[3] % 5]))
@@ -226,13 +230,13 @@ def worker(args):
         st.tuples(st.just("mouse"), st.integers(0, 7), st.sampled_from([0, 1, 2, 5, 9, 11, 30, 49, 79, 200, 300]), st.sampled_from([0, 1, 2, 3, 4, 8, 15, 23, 49, 100, 250])),
         st.tuples(st.just("click_tab"), st.integers(0, 4)),
         st.tuples(st.just("resize"), st.integers(0, len(SIZES_R) - 1), st.integers(0, len(SIZES_C) - 1)),
-        st.tuples(st.just("feed"), st.integers(0, 5), st.integers(0, 2)),
+        st.tuples(st.just("feed"), st.integers(0, 5), st.integers(0, 3)),
         st.tuples(st.just("mouse"), st.sampled_from([0, 0, 2, 1]), st.integers(0, 12), st.integers(0, 60)),  # left button in the touchscreen column
         st.tuples(st.just("wait_expiry")),
-        st.tuples(st.just("feed_tab"), st.integers(2, 5), st.integers(0, 2), st.integers(0, 4)),
+        st.tuples(st.just("feed_tab"), st.integers(2, 5), st.integers(0, 3), st.integers(0, 4)),
         st.tuples(st.just("server_drop"), st.integers(0, 1)),
         # several aircraft in one coverage cell, then each tab in turn
-        st.sampled_from([("feed_tab", 3, 2, 1), ("feed_tab", 2, 2, 0), ("feed_tab", 4, 2, 2), ("feed_tab", 2, 1, 1), ("feed_tab", 5, 2, 3)]),
+        st.sampled_from([("feed_tab", 3, 2, 1), ("feed_tab", 2, 2, 0), ("feed_tab", 4, 2, 2), ("feed_tab", 2, 1, 1), ("feed_tab", 5, 2, 3), ("feed_tab", 3, 3, 3), ("feed_tab", 2, 3, 3), ("feed_tab", 4, 3, 0)]),
     )
     session = st.fixed_dictionaries({
         "flags": st.one_of(st.lists(st.integers(0, len(FLAGS) - 1), max_size=3), st.lists(st.integers(0, len(FLAGS) - 1), max_size=2).map(lambda l: [0] + l), st.lists(st.integers(0, len(FLAGS) - 1), max_size=2).map(lambda l: [7] + l)),
